@@ -937,7 +937,7 @@ int main(int argc, char **argv) {
     fams.push_back({"ab-depth4-le3keys",
                     {"a", "b"},
                     4,
-                    1,
+                    0,
                     3,
                     {{true, {ST_2}, {SH_FULL}, true, 0}, {true, {ST_2, ST_VARY, ST_COSMETIC}, {SH_FULL, SH_NONE}, false, 1}},
                     true,
@@ -948,7 +948,7 @@ int main(int argc, char **argv) {
     fams.push_back({"ab-depth4-le3keys",
                     {"a", "b"},
                     4,
-                    1,
+                    0,
                     3,
                     {{true, two_styles, all_shares, true, 0}, {true, all_styles, all_shares, false, 3}},
                     true,
